@@ -36,8 +36,8 @@ func (w *world) collectStarts() {
 			if w.obs != nil {
 				w.obs.handlerStart(w, ev.i, ev.phase, stt)
 			}
-		case <-time.After(20 * time.Second):
-			panic("harness: handler goroutine did not park within 20s (deadlock in runner?)")
+		case <-time.After(3 * time.Minute): // generous: only a real deadlock should trip this, never machine load
+			panic("harness: handler goroutine did not park within 3 minutes (deadlock in runner?)")
 		}
 	}
 }
